@@ -186,7 +186,7 @@ Fixpoint ancestors (fuel : nat) (barrier : Z -> bool) (s : store) (ins : Z) (fro
       | g :: rest =>
           if zin g acc then ancestors f barrier s ins rest acc
           else match task_by_gid s ins g with
-               | Some r => if barrier (t_id r) then ancestors f barrier s ins rest acc
+               | Some r => if barrier (t_id r) then ancestors f barrier s ins rest (g :: acc)   (* counted, not looked through *)
                            else ancestors f barrier s ins (t_deps r ++ rest) (g :: acc)
                | None => ancestors f barrier s ins rest (g :: acc)
                end
@@ -376,7 +376,7 @@ Definition on_write (m : mst) (origin : Z) (o : sop) (acked : bool) (s s' : stor
                          then add_viol m 11 2 id else m in
                 let m := if Z.eqb name cCancel
                          then let hit := filter (fun t => existsb (fun p => Z.eqb (fst p) t) (m_alive m)) targets in
-                              fold_left (fun acc t => fset acc 15 t 0) hit (set_cancelreq m (hit ++ m_cancelreq m))
+                              set_cancelreq m (hit ++ m_cancelreq m)
                          else m in
                 fset m 11 id 0
             | None => m
